@@ -1,6 +1,7 @@
 /-
 Line-protocol driver for the `dsl` cluster (C15).
 
+  t  <text> <uw>           _LARK_PARSER.parse(text)  →  tree <rule>(<child>,…)  (NAME token = its escaped value)  or  err
   c  <text> <uw>           compile_str(text)      →  ok <path>|<path>|…   or   err ValueError
   eq <text1> <text2> <uw> <rel>  (rel ignored)   →  eq <exprs equal> <graph lists ==> <graph sets ==>
                                                      (eq <b> err when a compile raises; err ValueError when a parse raises)
@@ -24,6 +25,7 @@ Run:  lake env lean --run TraitsVerif/Driver/Dsl.lean
 import TraitsVerif.Driver.Proto
 import TraitsVerif.Model.DslCompile
 import TraitsVerif.Model.DslMatch
+import TraitsVerif.Model.DslPy
 namespace TraitsVerif.Driver.Dsl
 open TraitsVerif TraitsVerif.Model.Dsl TraitsVerif.Proto
 
@@ -136,6 +138,13 @@ def handle (line : String) : String :=
   | ["c", t, u] =>
     match unesc t, parseUw u with
     | some s, some uw => showCompile (compileChars uw s)
+    | _, _ => "bad-case"
+  | ["t", t, u] =>
+    match unesc t, parseUw u with
+    | some s, some uw =>
+      (match parseChars uw s with
+       | some c => "tree " ++ Model.DslPy.larkShow esc true c
+       | none => "err")
     | _, _ => "bad-case"
   | "l" :: u :: items =>
     match parseUw u with
